@@ -15,6 +15,7 @@ import Driver.Cache
 import Driver.Skeleton
 import Driver.Fold
 import Driver.BulkNames
+import Driver.CondHeaders
 open Lean
 
 def dispatch (j : Json) : Json :=
@@ -33,6 +34,7 @@ def dispatch (j : Json) : Json :=
   | "propsreq" => Driver.handlePropsReq j
   | "prefilter" => Driver.handlePrefilter j
   | "bulknames" => Driver.handleBulkNames j
+  | "condheaders" => Driver.handleCondHeaders j
   | "ping" => Driver.obj [("r", Json.str "pong")]
   | _ => Driver.obj [("error", Json.str "bad-model")]
 
